@@ -319,7 +319,34 @@ func evalC08(c *Ctx, cs *Case) {
 }
 
 // judge one verify call against the model for the roots it covers
+// c08Kept: the errors of the last few Verify calls together with the text they had when they
+// were returned. A caller may keep a report and read it later: after other Verify calls (other
+// trees, other directories) every kept report must still say what it said.
+var c08Kept []struct {
+	err   error
+	text  string
+	entry string
+}
+
 func c08Judge(c *Ctx, cs *Case, roots model.Forest, target, relPrefix string, strict bool, o Outcome, det map[string]any) {
+	for _, k := range c08Kept {
+		c.Count("kept_reports_read_again_after_later_calls", 1)
+		if now := k.err.Error(); now != k.text {
+			c.Violation(cs, "report.changed-after-later-calls", "", map[string]any{"returned_by": k.entry, "text_when_returned": trunc(k.text, 600), "text_now": trunc(now, 600), "later_call": cs.Entry})
+			c08Kept = nil
+			break
+		}
+	}
+	if o.Err != nil && o.Panic == nil {
+		if len(c08Kept) >= 6 {
+			c08Kept = c08Kept[1:]
+		}
+		c08Kept = append(c08Kept, struct {
+			err   error
+			text  string
+			entry string
+		}{o.Err, o.Err.Error(), cs.Entry})
+	}
 	if o.Panic != nil {
 		det["stack"] = o.Stack
 		c.Violation(cs, "panic", PanicSig(o.Panic, o.Stack), det)
